@@ -92,7 +92,8 @@ impl Prop for C14 {
          concat(layout_i ++ token_i) == input[..end of last leaf] and the rest is layout; every \
          stored layout equals the generated run before that token (attachment to the right leaf) and \
          is whitespace / a sentence of the Layout template (independent recogniser). Metamorphic: all \
-         re-layouts of a sentence parse Ok to the same tree modulo positions; sentences must parse. \
+         re-layouts of a sentence parse Ok to the same tree modulo positions; sentences must parse; \
+         with partial_parse on every rendering gives the very same tree (layout never ends the parse early); \
          non-trivial = (grammar, mode, rendering) with >= 2 non-empty layouts and a tree with >= 2 \
          interior nodes"
             .into()
@@ -244,6 +245,26 @@ impl Prop for C14 {
                         json!({"grammar": text, "mode": mode, "input": inp,
                                "tree": canon_real(&d, &tree, true)})
                     });
+                }
+                // with partial parsing enabled the same tree must be built (a sentence followed
+                // by nothing but layout is consumed as a whole; layout never ends the parse early)
+                dynp::reset_steps(LR_STEPS * 4);
+                match guarded(|| dynp::lr_parse(inp, RunOpts { partial: true, skip_ws: true })) {
+                    Err(p) => return panic_outcome(&format!("parse|partial-on|{mode}"), &p),
+                    Ok(Err(e)) => {
+                        return Outcome::fail(
+                            format!("partial-on|sentence-rejected-with-layout|{mode}"),
+                            format!("{}\nerror {:?} {}", ctx(), e.span, e.message),
+                        )
+                    }
+                    Ok(Ok(pt)) => {
+                        if pt != tree {
+                            return Outcome::fail(
+                                format!("partial-on|tree-or-layout-differs|{mode}"),
+                                format!("{}\npartial_parse on : {}\npartial_parse off: {}", ctx(), canon_real(&d, &pt, true), canon_real(&d, &tree, true)),
+                            );
+                        }
+                    }
                 }
                 fresh.push((r.text.clone(), tree));
             }
